@@ -342,7 +342,7 @@ func (gstHarness) Exec(p *simkit.Program) *simkit.Result {
 					chain.add(int(st.B) + k)
 				}
 				// what the update ticker does
-				sets, err := GetGuardianSetsFromChain(ctx, gs.ethRpcUrl, gs.ethGovernanceAddress, uint32(gs.currentGuardianSetIndex+1))
+				sets, err := GetGuardianSetsFromChain(ctx, gs.ethRpcUrl, gs.ethGovernanceAddress, gs.GetCurrentGuardianSet().Index+1)
 				if err != nil {
 					return ""
 				}
@@ -352,8 +352,31 @@ func (gstHarness) Exec(p *simkit.Program) *simkit.Result {
 			tasks = append(tasks, t)
 		}
 	}
+	if raceBuild {
+		// race-detector tier: the unrewritten methods, tasks really concurrent, no scheduler
+		sched = nil
+		var wg sync.WaitGroup
+		for _, t := range tasks {
+			wg.Add(1)
+			go func(t *task) {
+				defer wg.Done()
+				defer func() {
+					if r := recover(); r != nil {
+						t.panicked = fmt.Sprint(r)
+					}
+				}()
+				t.result = t.fn()
+			}(t)
+		}
+		wg.Wait()
+		for _, t := range tasks {
+			t.done = true
+		}
+	}
 	for _, t := range tasks {
-		s.start(t)
+		if !raceBuild {
+			s.start(t)
+		}
 	}
 	runnable := func() []*task {
 		var out []*task
